@@ -304,6 +304,10 @@ def fam_eof(rng):
     eof = [i for i in range(len(rs.scs)) if rng.random() < 0.6]
     cfg = rt.Config(ledger=rng.random() < 0.5, backend=_backend(rng), topt=rng.choice(TOPTS), interactive=rng.choice([None, False]),
                     eof_scs=eof, stack=True)
+    if rng.random() < 0.35:
+        # some start conditions have their own <<EOF>> rule, an unqualified one covers all the others
+        cfg.eof_own = eof
+        cfg.eof_scs = list(range(len(rs.scs)))
     return rs, cfg, _ops_case(kinds=['begin', 'push', 'pop', 'input', 'return'], nsrc=3, wrap=True)
 
 
